@@ -682,7 +682,7 @@ def make_esmf(oid, si_case, tiers=("quick", "thorough"), dtype="int32"):
 
 
 # ------------------------------------------------------------------ MPAS (primal and dual)
-def make_mpas(oid, dual, tiers=("quick", "thorough")):
+def make_mpas(oid, dual, tiers=("quick", "thorough"), int_dtype="int32"):
     nC, nV, nE, mE = 2, 4, 3, 4          # cells, vertices, edges, maxEdges
 
     def setup(ctx):
@@ -727,7 +727,7 @@ def make_mpas(oid, dual, tiers=("quick", "thorough")):
         def mkarr(rows, kind, flat=False):
             vals = [mk(x) if z3.is_expr(x) else x for r in rows for x in r]
             shp = (len(vals),) if flat else (len(rows), len(rows[0]))
-            return symnp.SArr.new(vals, shp, None, symnp.int32 if kind == "i" else symnp.float64)
+            return symnp.SArr.new(vals, shp, None, (symnp.int32 if int_dtype == "int32" else symnp.int64) if kind == "i" else symnp.float64)
         ds = build(voc, ne, pad, eoc, coc, cov, voe, coe, R, dv, dc, area, mkarr, symxr.DataArray, symxr.Dataset)
         Grid = world().get("uxarray.grid.grid", "Grid")
         g = _open(ctx, Grid, ds, use_dual=dual)
@@ -767,7 +767,7 @@ def make_mpas(oid, dual, tiers=("quick", "thorough")):
         import uxarray as ux
 
         def mkarr(rows, kind, flat=False):
-            a = np.array(rows, dtype=np.int32 if kind == "i" else float)
+            a = np.array(rows, dtype=(np.int32 if int_dtype == "int32" else np.int64) if kind == "i" else float)
             return a.ravel() if flat else a
         ne = v["voc_n"]
         lit = lambda t: [[int(x) for x in r] for r in t]      # noqa: E731
@@ -1049,7 +1049,8 @@ def obligations(tier):
             obs.append(make_ugrid(f"C01.ugrid.si_{si}.fill_{fc}.{dt}", si, fc, dt, tiers=("quick", "thorough") if quick else ("thorough",)))
     obs += [make_esmf(f"C01.esmf.si_{si}", si) for si in ("absent", "0", "1")]
     obs += [make_esmf(f"C01.esmf.si_{si}.int64", si, dtype="int64") for si in ("absent", "1")]
-    obs += [make_mpas("C01.mpas.primal", False), make_mpas("C01.mpas.dual", True)]
+    obs += [make_mpas("C01.mpas.primal", False), make_mpas("C01.mpas.dual", True),
+            make_mpas("C01.mpas.primal.int64", False, int_dtype="int64"), make_mpas("C01.mpas.dual.int64", True, int_dtype="int64")]
     obs += [make_exodus("C01.exodus.coord", "coord"), make_exodus("C01.exodus.coordxyz", "coordxyz"),
             make_exodus_blocks("C01.exodus.blocks.tri_quad", False), make_exodus_blocks("C01.exodus.blocks.quad_tri", True),
             make_icon("C01.icon"), make_geos("C01.geos"),
